@@ -252,7 +252,7 @@ class _Builder:
         if o.args is not None:
             for a in o.args:
                 if isinstance(a, ast.Starred):
-                    args.append(self.build(a.value))
+                    args.extend(self.build(a.value))
                 else:
                     args.append(self.build(a))
         kwargs = {}
